@@ -245,4 +245,57 @@ class Stream(Part):
         return ("idx", c.number)
 
 
-PARTS = [Stream()]
+class Bulk(Part):
+    name = "bulk"
+    rule = ("one print() of a renderable that yields many styled line segments - total size around 32Ki / 64Ki / 96Ki characters and beyond, lines of 10 to 40000 characters - "
+            "through each colour system: the visible characters written are exactly those of the segments, in order, every line complete; the style of a sample of lines is "
+            "checked with the SGR interpreter; non-trivial = the written stream is longer than 32767 characters")
+    budget = {"quick": (8, 12), "thorough": (16, 150)}
+    chunk = 12
+
+    def strategy(self, tier):
+        total = st.one_of(st.integers(32000, 34000), st.integers(64500, 67000), st.integers(97000, 100000), st.integers(1000, 250000))
+        return st.builds(lambda t, ll, sysname, sty, nl: {"total": t, "line": ll, "system": sysname, "styles": sty, "final_newline": nl}, total, st.sampled_from([10, 50, 50, 200, 2000, 40000]),
+                         st.sampled_from([s for s in SYSTEMS]), st.lists(st.integers(0, len(GS.PALETTE) - 1), min_size=1, max_size=3), st.booleans())
+
+    def check(self, spec, ctx):
+        from rich.console import Console
+        from rich.segment import Segment
+
+        styles = [GS.build_style(GS.PALETTE[i]) for i in spec["styles"]]
+        n = max(1, spec["total"] // (spec["line"] + 8))
+        segs = []
+        lines = []
+        for i in range(n):
+            text = "L%06d " % i + "x" * spec["line"]
+            lines.append(text)
+            segs.append(Segment(text, styles[i % len(styles)]))
+            if i < n - 1 or spec["final_newline"]:
+                segs.append(Segment("\n"))
+        f = io.StringIO()
+        con = sut(Console, file=f, color_system=spec["system"], force_terminal=True, legacy_windows=False, width=50000, _environ={})
+        sut(con.print, Raw(segs), end="")
+        out = f.getvalue()
+        vis = SGR.visible(out)
+        want = "\n".join(lines) + ("\n" if spec["final_newline"] else "")
+        if vis != want:
+            got_lines = vis.split("\n")
+            missing = [l[:7] for l in lines if l not in set(got_lines)][:5]
+            ctx.violation("characters", "C03/bulk/lost", "a print of %d lines of %d characters (%d characters written, colour system %r): %d visible characters instead of %d; first lines missing or incomplete: %r" % (
+                n, spec["line"] + 7, len(out), spec["system"], len(vis), len(want), missing))
+            return
+        if spec["system"] is not None:
+            # sample: first, last and a middle line keep their style
+            raw_lines = out.split("\n")
+            for i in sorted({0, n // 2, n - 1}):
+                ev, _ = SGR.interpret(raw_lines[i])
+                chars = [e for e in ev if e[0] == "ch"]
+                if len({tuple(e[2:]) for e in chars}) > 1:
+                    ctx.violation("style", "C03/bulk/style", "line %d of a bulk print is not uniformly styled: %r" % (i, raw_lines[i][:80]))
+                    return
+        if len(out) > 32767:
+            ctx.nontrivial = True
+        ctx.cls("written>32767" if len(out) > 32767 else "written<=32767")
+
+
+PARTS = [Stream(), Bulk()]
